@@ -642,6 +642,9 @@ impl Core {
     ) -> Result<(), String> {
         if let Some(rules_engine) = &context.settings.rules_engine {
             if let Some(ip) = client_ip {
+                // A dual-stack listener reports an IPv4 peer as `::ffff:a.b.c.d`.
+                // The rules apply to the peer's actual address, so IPv4 CIDRs must match it.
+                let ip = ip.to_canonical();
                 let rule_result = rules_engine.evaluate(&ip, client_random);
                 #[cfg(trusttunnel_verif)]
                 crate::verif_emit!(
